@@ -98,14 +98,14 @@ package basichost
 //@ noframe
 
 //@ func (s *streamWrapper) Close
-//@ prop C07
+//@ prop C07 C02
 //@ callsite SetReadDeadline#0 requires arg0 == s.Stream
 //@ callsite Close#0 requires arg0 == s.rw && called(SetReadDeadline, 0)
 //@ ensures ncalls(Close, 0) == 1 && result == ret(Close, 0, 0)
 //@ modifies nothing
 
 //@ func (s *streamWrapper) CloseWrite
-//@ prop C07
+//@ prop C07 C02
 //@ callsite Flush#0 requires arg0 == s.rw && !called(CloseWrite, 0)
 //@ callsite CloseWrite#0 requires arg0 == s.Stream
 //@ ensures ncalls(CloseWrite, 0) == 1 && result == ret(CloseWrite, 0, 0)
